@@ -70,6 +70,11 @@ def label_value(idx: int, size: int, entries: str, additive: bool):
         return idx * 1.25 + 0.5
     if entries == "complex":
         return complex(idx + 1, scramble(idx))
+    if entries == "ctiny":  # ordinary real parts, imaginary parts of order 1e-15 (integers times 2^-60: all sums stay exact) - added after
+        # seeded change C02-8, which passed the result through np.real_if_close (absolute threshold 100 eps)
+        return complex(idx + 1, scramble(idx) * 2.0 ** -60)
+    if entries == "cscaled":  # a complex operator of ordinary shape scaled by 2^-60
+        return complex((idx + 1) * 2.0 ** -60, scramble(idx) * 2.0 ** -60)
     if entries == "nearherm":
         # large entries that are symmetric up to a perturbation of a few units: np.allclose(X, X^T) holds (1e-5 relative) although X is
         # not symmetric - added after seeded change C02-5 (a "Hermitian" fast path guarded by allclose rebuilt the lower triangle)
@@ -86,7 +91,7 @@ def label_value(idx: int, size: int, entries: str, additive: bool):
 
 
 _DTYPES = {"sym": object, "pow": object, "int": np.int64, "intB": np.int64, "float": np.float64, "complex": np.complex128,
-           "u8": np.uint8, "i8": np.int8, "bool": np.bool_, "nearherm": np.int64}
+           "u8": np.uint8, "i8": np.int8, "bool": np.bool_, "nearherm": np.int64, "ctiny": np.complex128, "cscaled": np.complex128}
 
 
 def labelled(rows: int, cols: int, entries: str, additive: bool = False) -> np.ndarray:
